@@ -1,4 +1,5 @@
 import Tickit.Proof.WinInputSimOps
+import Tickit.Proof.WinInputSimFocus
 /-
   Delivery under mutation (C14): whatever the handlers do to the windows of a set `A` (closed under descendants),
   the windows outside `A` are offered a key / mouse event in the reference order of the tree as it was when the
@@ -54,18 +55,31 @@ theorem Off.say_offer (st : St) (k : Kind) (w : WinTree.Id) (e : Ev) (b : Bool) 
 
 /-! ### tables whose actions are confined to `A` -/
 
-def Conf (A : Aff) (binds : Array Binding) : Prop :=
-  ∀ (i : Nat) (b : Binding), binds[i]? = some b → ∀ e ∈ b.entries, ∀ a ∈ e.actions, ActConf A a
+/-- What `take_focus` from inside a handler needs of the set `A` and the initial store: `A` is a union of whole
+    top-level subtrees (the parent of a window of `A` is in `A` or is the root), it does not contain the root, and
+    the root's focus pointer points into `A` or nowhere — so that the only focus pointer outside `A` that moves is the
+    root's, and it moves within `A`. -/
+structure FocusOK (A : Aff) (t0 : Tree) : Prop where
+  root : A 0 = false
+  top : TopNow A t0
+  rootFc : RootFc A t0
 
-theorem Conf.entry {A : Aff} {binds : Array Binding} (hs : Conf A binds) {i : Nat} {b : Binding} (h : binds[i]? = some b) :
-    ∀ a ∈ b.entry.actions, ActConf A a := by
+/-- An action confined to `A`: `ActConf`, or `take_focus` on a window of `A` under `FocusOK`. -/
+def ActConfF (A : Aff) (t0 : Tree) (a : Action) : Prop :=
+  ActConf A a ∨ (a.act = .focus ∧ A a.win = true ∧ FocusOK A t0)
+
+def Conf (A : Aff) (t0 : Tree) (binds : Array Binding) : Prop :=
+  ∀ (i : Nat) (b : Binding), binds[i]? = some b → ∀ e ∈ b.entries, ∀ a ∈ e.actions, ActConfF A t0 a
+
+theorem Conf.entry {A : Aff} {t0 : Tree} {binds : Array Binding} (hs : Conf A t0 binds) {i : Nat} {b : Binding}
+    (h : binds[i]? = some b) : ∀ a ∈ b.entry.actions, ActConfF A t0 a := by
   unfold Binding.entry
   rcases getD_mem_or b.entries (entryIndex b) { ret := false } with hm | hd
   · exact hs i b h _ hm
   · rw [hd]; intro a ha; cases ha
 
-theorem Conf.bump {A : Aff} {binds : Array Binding} (hs : Conf A binds) {i : Nat} {b : Binding} (h : binds[i]? = some b) (k : Nat) :
-    Conf A (binds.setIfInBounds i { b with count := k }) := by
+theorem Conf.bump {A : Aff} {t0 : Tree} {binds : Array Binding} (hs : Conf A t0 binds) {i : Nat} {b : Binding}
+    (h : binds[i]? = some b) (k : Nat) : Conf A t0 (binds.setIfInBounds i { b with count := k }) := by
   intro j x hx e he
   rw [Array.getElem?_setIfInBounds] at hx
   by_cases hij : i = j
@@ -77,6 +91,17 @@ theorem Conf.bump {A : Aff} {binds : Array Binding} (hs : Conf A binds) {i : Nat
   · simp only [hij, if_false] at hx
     exact hs j x hx e he
 
+theorem Sim.back {A : Aff} {t0 t : Tree} (h : Sim A t0 t) {x : WinTree.Id} {w : Win} (hw : t.wins[x]? = some w) :
+    ∃ w0, t0.wins[x]? = some w0 := by
+  have hlt : x < t.wins.size := (Array.getElem?_eq_some_iff.1 hw).1
+  rw [h.size] at hlt
+  exact ⟨_, Array.getElem?_eq_getElem hlt⟩
+
+theorem Sim.rel {A : Aff} {t0 t : Tree} (h : Sim A t0 t) {x : WinTree.Id} {w w0 : Win} (hx : A x = false)
+    (hw0 : t0.wins[x]? = some w0) (hw : t.wins[x]? = some w) : WinRel A w w0 := by
+  obtain ⟨w', hw', r⟩ := h.win x w0 hx hw0
+  rw [hw] at hw'; cases hw'; exact r
+
 /-! ### the invariant of a dispatch -/
 
 /-- What holds between the phases of a dispatch: the store and accounting invariant, the store is the initial one
@@ -84,20 +109,65 @@ theorem Conf.bump {A : Aff} {binds : Array Binding} (hs : Conf A binds) {i : Nat
 structure DInv (A : Aff) (t0 : Tree) (held : List WinTree.Id) (st : St) : Prop where
   good : Good held st
   sim : Sim A t0 st.tree
-  conf : Conf A st.binds
+  conf : Conf A t0 st.binds
   own : Own A st
 
 theorem safeR_ok {α : Type} {r : Res α} {Q : α → Prop} {a : α} (hs : SafeR r Q) (hr : r = Res.ok a) : Q a := by
   rw [hr] at hs; exact hs
 
-theorem DInv.action {A : Aff} {t0 : Tree} {held : List WinTree.Id} {st st' : St} (h : DInv A t0 held st) {a : Action}
-    (hc : ActConf A a) (hr : doAction st a = Res.ok st') : DInv A t0 held st' ∧ Off st st' [] := by
-  obtain ⟨hg', hb⟩ := safeR_ok (doAction_safe h.good.1 (actOK_all a)) hr
-  obtain ⟨hs, ho⟩ := doAction_sim h.good h.sim.down h.own hc hr
-  exact ⟨⟨⟨hg', tableOK_all _⟩, h.sim.trans hs, by rw [hb]; exact h.conf, ho⟩, Off.of_ext (doAction_ext notOffer_quiet hr)⟩
+/-- What holds now of the focus side conditions, given that they held in the beginning. -/
+theorem focusNow {A : Aff} {t0 t : Tree} (hi0 : TInv t0) (hi : TInv t) (hs : Sim A t0 t) (hfo : FocusOK A t0) :
+    TopNow A t ∧ RootFc A t ∧ RootTop t := by
+  refine ⟨?_, ?_, ?_⟩
+  · intro x w hx hw hf p hp
+    cases hAp : A p with
+    | true => exact Or.inl rfl
+    | false =>
+      right
+      obtain ⟨pw, hpw, hpf, hm⟩ := hi.parent x p w hw hf hp
+      obtain ⟨pw0, hpw0⟩ := hs.back hpw
+      obtain ⟨pw', hpw', rel⟩ := hs.win p pw0 hAp hpw0
+      rw [hpw] at hpw'; cases hpw'
+      have hm0 : x ∈ pw0.children := rel.kids.mem hm
+      obtain ⟨xw0, hxw0, hxf0, hxp0⟩ := hi0.child p x pw0 hpw0 (by rw [← rel.freed]; exact hpf) hm0
+      rcases hfo.top x xw0 hx hxw0 hxf0 p hxp0 with h | h
+      · rw [h] at hAp; cases hAp
+      · exact h
+  · intro w fc hw hfc
+    obtain ⟨w0, hw0⟩ := hs.back hw
+    obtain ⟨w', hw', rel⟩ := hs.win 0 w0 hfo.root hw0
+    rw [hw] at hw'; cases hw'
+    rcases rel.fc with e | ⟨p, _⟩
+    · exact hfo.rootFc w0 fc hw0 (by rw [← e]; exact hfc)
+    · exact p fc hfc
+  · intro w hw
+    obtain ⟨w0, hw0, _, hp0⟩ := hi.root
+    rw [hw] at hw0; cases hw0; exact hp0
 
-theorem DInv.actions {A : Aff} {t0 : Tree} {held : List WinTree.Id} : ∀ (as : List Action) (st st' : St), DInv A t0 held st →
-    (∀ a ∈ as, ActConf A a) → doActions st as = Res.ok st' → DInv A t0 held st' ∧ Off st st' [] := by
+theorem DInv.action {A : Aff} {t0 : Tree} {held : List WinTree.Id} {st st' : St} (hi0 : TInv t0) (h : DInv A t0 held st)
+    {a : Action} (hc : ActConfF A t0 a) (hr : doAction st a = Res.ok st') : DInv A t0 held st' ∧ Off st st' [] := by
+  obtain ⟨hg', hb⟩ := safeR_ok (doAction_safe h.good.1 (actOK_all a)) hr
+  have hoff : Off st st' [] := Off.of_ext (doAction_ext notOffer_quiet hr)
+  rcases hc with hc | ⟨hact, hA, hfo⟩
+  · obtain ⟨hs, ho⟩ := doAction_sim h.good h.sim.down h.own hc hr
+    exact ⟨⟨⟨hg', tableOK_all _⟩, h.sim.trans hs, by rw [hb]; exact h.conf, ho⟩, hoff⟩
+  · have key : Sim A st.tree st'.tree ∧ st'.owned = st.owned := by
+      unfold doAction at hr
+      by_cases hal : allowed st a = true
+      · simp only [hal, Bool.not_true, Bool.false_eq_true, if_false, hact] at hr
+        obtain ⟨t', ht', hr⟩ := res_bind_eq_ok.1 hr
+        simp only [res_pure, Res.ok.injEq] at hr
+        subst hr
+        obtain ⟨h1, h2, h3⟩ := focusNow hi0 h.good.1.tree h.sim hfo
+        exact ⟨takeFocus_sim hfo.root h.sim.down h1 h2 h3 hA ht', rfl⟩
+      · simp only [hal, Bool.not_false, if_true, res_pure, Res.ok.injEq] at hr
+        subst hr
+        exact ⟨Sim.refl h.sim.down, rfl⟩
+    refine ⟨⟨⟨hg', tableOK_all _⟩, h.sim.trans key.1, by rw [hb]; exact h.conf, ?_⟩, hoff⟩
+    exact Own.of_sim key.1 (fun x _ => by rw [key.2]; exact Nat.le_refl _) h.own
+
+theorem DInv.actions {A : Aff} {t0 : Tree} {held : List WinTree.Id} (hi0 : TInv t0) : ∀ (as : List Action) (st st' : St), DInv A t0 held st →
+    (∀ a ∈ as, ActConfF A t0 a) → doActions st as = Res.ok st' → DInv A t0 held st' ∧ Off st st' [] := by
   intro as
   induction as with
   | nil =>
@@ -108,11 +178,11 @@ theorem DInv.actions {A : Aff} {t0 : Tree} {held : List WinTree.Id} : ∀ (as : 
     intro st st' h hc hr
     simp only [doActions] at hr
     obtain ⟨st1, h1, h2⟩ := res_bind_eq_ok.1 hr
-    obtain ⟨d1, o1⟩ := h.action (hc a (List.mem_cons_self ..)) h1
+    obtain ⟨d1, o1⟩ := h.action hi0 (hc a (List.mem_cons_self ..)) h1
     obtain ⟨d2, o2⟩ := ih st1 st' d1 (fun b hb => hc b (List.mem_cons_of_mem _ hb)) h2
     exact ⟨d2, by simpa using o1.trans o2⟩
 
-theorem DInv.bindings {A : Aff} {t0 : Tree} {held : List WinTree.Id} (kind : Kind) (win : WinTree.Id) (ev : Ev) :
+theorem DInv.bindings {A : Aff} {t0 : Tree} {held : List WinTree.Id} (hi0 : TInv t0) (kind : Kind) (win : WinTree.Id) (ev : Ev) :
     ∀ (idxs : List Nat) (st st' : St) (c : Bool), DInv A t0 held st → runBindings st kind win ev idxs = Res.ok (st', c) →
     DInv A t0 held st' ∧ Off st st' [] := by
   intro idxs
@@ -136,7 +206,7 @@ theorem DInv.bindings {A : Aff} {t0 : Tree} {held : List WinTree.Id} (kind : Kin
       have o0 : Off st (({ st with binds := st.binds.setIfInBounds bi { b with count := b.count + 1 } } : St).say
           (.call kind win b.idx (entryIndex b) b.entry.ret ev)) [] :=
         Off.of_ext ((Ext.of_log (st' := { st with binds := _ }) rfl).trans (Ext.say _ trivial))
-      obtain ⟨d1, o1⟩ := DInv.actions _ _ _ d0 (h.conf.entry hb) h1
+      obtain ⟨d1, o1⟩ := DInv.actions hi0 _ _ _ d0 (h.conf.entry hb) h1
       by_cases hret : b.entry.ret = true
       · simp only [hret, if_true, res_pure, Res.ok.injEq, Prod.mk.injEq] at hr
         rw [← hr.1]; exact ⟨d1, by simpa using o0.trans o1⟩
@@ -146,13 +216,13 @@ theorem DInv.bindings {A : Aff} {t0 : Tree} {held : List WinTree.Id} (kind : Kin
 
 /-- `run_events_whilefalse(win, …)`: one offer, to `win`. -/
 theorem DInv.handlers {A : Aff} {t0 : Tree} {held : List WinTree.Id} {kind : Kind} {win : WinTree.Id} {ev : Ev} {st st' : St}
-    {c : Bool} (h : DInv A t0 held st) (hr : runHandlers st kind win ev = Res.ok (st', c)) :
+    {c : Bool} (hi0 : TInv t0) (h : DInv A t0 held st) (hr : runHandlers st kind win ev = Res.ok (st', c)) :
     DInv A t0 held st' ∧ Off st st' [win] := by
   unfold runHandlers at hr
   have d0 : DInv A t0 held (st.say (.offer kind win ev (visibleChain st.tree (treeFuel st.tree) win))) :=
     ⟨⟨⟨h.good.1.tree, h.good.1.drag, h.good.1.size, h.good.1.rc, h.good.1.leaf, h.good.1.held, h.good.1.root, h.good.1.pos⟩,
       tableOK_all _⟩, h.sim, h.conf, h.own⟩
-  obtain ⟨d1, o1⟩ := DInv.bindings kind win ev _ _ _ _ d0 hr
+  obtain ⟨d1, o1⟩ := DInv.bindings hi0 kind win ev _ _ _ _ d0 hr
   exact ⟨d1, by simpa using (Off.say_offer st kind win ev _).trans o1⟩
 
 /-- Taking a reference. -/
@@ -233,17 +303,6 @@ theorem Base.up {A : Aff} {t0 : Tree} (hb : Base A t0) {x p : WinTree.Id} {w0 : 
   | true =>
     obtain ⟨pw, hpw, _, hm⟩ := hb.inv.parent x p w0 hw0 hf hp
     rw [hb.down p pw hA hpw x hm] at hx; cases hx
-
-theorem Sim.back {A : Aff} {t0 t : Tree} (h : Sim A t0 t) {x : WinTree.Id} {w : Win} (hw : t.wins[x]? = some w) :
-    ∃ w0, t0.wins[x]? = some w0 := by
-  have hlt : x < t.wins.size := (Array.getElem?_eq_some_iff.1 hw).1
-  rw [h.size] at hlt
-  exact ⟨_, Array.getElem?_eq_getElem hlt⟩
-
-theorem Sim.rel {A : Aff} {t0 t : Tree} (h : Sim A t0 t) {x : WinTree.Id} {w w0 : Win} (hx : A x = false)
-    (hw0 : t0.wins[x]? = some w0) (hw : t.wins[x]? = some w) : WinRel A w w0 := by
-  obtain ⟨w', hw', r⟩ := h.win x w0 hx hw0
-  rw [hw] at hw'; cases hw'; exact r
 
 /-- Windows outside `A` have the same visible parent chain as in the beginning. -/
 theorem visibleChain_sim {A : Aff} {t0 t : Tree} (hb : Base A t0) (h : Sim A t0 t) : ∀ (f : Nat) (x : WinTree.Id), A x = false →
@@ -569,7 +628,7 @@ theorem keyOwn_sim {A : Aff} {t0 : Tree} (hb : Base A t0) {st st' : St} {win : W
       rw [hrh] at hr
       simp only [lift_ok, Out.ok.injEq] at hr
       subst hr
-      obtain ⟨d1, o1⟩ := h.handlers hrh
+      obtain ⟨d1, o1⟩ := h.handlers hb.inv hrh
       refine ⟨d1, [win], o1, ?_, ?_⟩
       · intro hA x hx; simp only [List.mem_singleton] at hx; subst hx; exact hA
       · intro _ F vs hv; simp only [Option.some.injEq] at hv; subst hv; exact Match.single A _ win
@@ -1153,7 +1212,7 @@ theorem mouseOwn_sim {A : Aff} {t0 : Tree} (hb : Base A t0) {st st' : St} {win :
   | true =>
     simp only [Bool.not_true, Bool.false_eq_true, if_false] at hr
     obtain ⟨⟨st1, done⟩, hrh, hr⟩ := lift_bind_eq_ok.1 hr
-    obtain ⟨g1, o1⟩ := h.handlers hrh
+    obtain ⟨g1, o1⟩ := h.handlers hb.inv hrh
     have inA : A win = true → ∀ x ∈ [win], A x = true := by
       intro hA x hx; simp only [List.mem_singleton] at hx; subst hx; exact hA
     cases done with
@@ -1297,7 +1356,7 @@ theorem firstOcc_fA (A : Aff) (l : List WinTree.Id) : firstOcc (fA A l) = fA A (
 structure Unaffected (A : Aff) (st : St) : Prop where
   inv : AInv st []
   base : Base A st.tree
-  conf : Conf A st.binds
+  conf : Conf A st.tree st.binds
   own : Own A st
 
 theorem Unaffected.dinv {A : Aff} {st : St} (h : Unaffected A st) : DInv A st.tree [] st :=
@@ -1337,14 +1396,40 @@ theorem stealFrontCheck_sound {A : Aff} {t : Tree} (h : stealFrontCheck A t = tr
   have := this c hcm
   simpa [hAc] using this
 
-def confCheck (A : Aff) (binds : Array Binding) : Bool :=
+def focusOKCheck (A : Aff) (t : Tree) : Bool :=
+  !A 0 &&
+  ((List.range t.wins.size).all fun x =>
+    match t.wins[x]? with
+    | some w => !A x || w.freed || (match w.parent with
+      | some p => A p || p == 0
+      | none => true)
+    | none => true) &&
+  (match t.wins[0]? with
+    | some w => (match w.focusedChild with
+      | some fc => A fc
+      | none => true)
+    | none => true)
+
+theorem focusOKCheck_sound {A : Aff} {t : Tree} (h : focusOKCheck A t = true) : FocusOK A t := by
+  unfold focusOKCheck at h
+  simp only [Bool.and_eq_true, List.all_eq_true] at h
+  obtain ⟨⟨h1, h2⟩, h3⟩ := h
+  refine ⟨by simpa using h1, ?_, ?_⟩
+  · intro x w hx hw hf p hp
+    have := h2 x (List.mem_range.2 (Array.getElem?_eq_some_iff.1 hw).1)
+    simp only [hw, hx, hf, hp, Bool.not_true, Bool.false_or, Bool.or_eq_true, beq_iff_eq] at this
+    exact this
+  · intro w fc hw hfc
+    simpa [hw, hfc] using h3
+
+def confCheck (A : Aff) (t : Tree) (binds : Array Binding) : Bool :=
   binds.toList.all fun b => b.entries.all fun e => e.actions.all fun a =>
     match a.act with
     | .raise | .raiseFront | .lower | .lowerBack | .keep => true
     | .close | .unref | .hide | .unhide | .stealOn | .stealOff => A a.win
-    | .focus => false
+    | .focus => A a.win && focusOKCheck A t
 
-theorem confCheck_sound {A : Aff} {binds : Array Binding} (h : confCheck A binds = true) : Conf A binds := by
+theorem confCheck_sound {A : Aff} {t : Tree} {binds : Array Binding} (h : confCheck A t binds = true) : Conf A t binds := by
   intro i b hb e he a ha
   unfold confCheck at h
   rw [List.all_eq_true] at h
@@ -1355,8 +1440,12 @@ theorem confCheck_sound {A : Aff} {binds : Array Binding} (h : confCheck A binds
   have := this e he
   rw [List.all_eq_true] at this
   have := this a ha
-  unfold ActConf
-  cases hact : a.act <;> simp only [hact] at this ⊢ <;> first | trivial | exact this | cases this
+  unfold ActConfF ActConf
+  cases hact : a.act <;> simp only [hact] at this ⊢
+  case focus =>
+    simp only [Bool.and_eq_true] at this
+    exact Or.inr ⟨trivial, this.1, focusOKCheck_sound this.2⟩
+  all_goals first | exact Or.inl trivial | exact Or.inl this
 
 def ownCheck (A : Aff) (st : St) : Bool :=
   (List.range st.tree.wins.size).all fun x =>
@@ -1372,7 +1461,7 @@ theorem ownCheck_sound {A : Aff} {st : St} (h : ownCheck A st = true) : Own A st
   simpa [hw, hx, hf] using this
 
 def unaffectedCheck (A : Aff) (st : St) : Bool :=
-  ainvCheck st && downCheck A st.tree && stealFrontCheck A st.tree && confCheck A st.binds && ownCheck A st
+  ainvCheck st && downCheck A st.tree && stealFrontCheck A st.tree && confCheck A st.tree st.binds && ownCheck A st
 
 theorem unaffectedCheck_sound {A : Aff} {st : St} (h : unaffectedCheck A st = true) : Unaffected A st := by
   unfold unaffectedCheck at h
